@@ -222,7 +222,7 @@ struct ApiWorld : World {
         auto query_op = [&](int d) {
             Json q = mk("query");
             static const std::vector<std::string> what = { "hyp", "seg", "seg_abandon", "seg_free_first", "lattice", "nbest", "nbest_abandon", "align", "align_twice", "json0", "json1", "json2", "prob",
-                                                           "n_frames", "times", "get_cmn", "get_cmn_update", "lookup", "config_churn" };
+                                                           "n_frames", "times", "get_cmn", "get_cmn_update", "lookup", "config_churn", "lattice_ops" };
             q.set("what", r.pick(what));
             q.set("k", (long long)r.below(6));
             push(q, d);
@@ -473,7 +473,7 @@ struct ApiWorld : World {
                             it = L(seg_iter_next(it));
                         }
                     }
-                } else if ((what == "lattice" || what == "nbest" || what == "nbest_abandon") && s.d->search &&
+                } else if ((what == "lattice" || what == "lattice_ops" || what == "nbest" || what == "nbest_abandon") && s.d->search &&
                            fsg_history_n_entries(((fsg_search_t *)s.d->search)->history) > 25000) {
                     out.probes["lat.skipped_too_many_word_exits"]++; // (lattice construction time is out of scope, see world_dec.cc)
                 } else if (what == "config_churn") {
@@ -492,6 +492,38 @@ struct ApiWorld : World {
                     }
                     L(config_free(c));
                     out.probes["api.config_churn"]++;
+                } else if (what == "lattice_ops") {
+                    // the lattice_* calls a caller can make on the decoder's lattice: best path, posteriors, posterior
+                    // pruning from harmless to so tight that nothing survives, and the same calls again afterwards
+                    lattice_t *dag = L(decoder_lattice(s.d));
+                    out.events.i64(dag ? dag->n_nodes : -1);
+                    if (dag) {
+                        float32 ascale = (float32)(1.0 / config_float(s.d->config, "ascale"));
+                        latlink_t *best = L(lattice_bestpath(dag, ascale));
+                        if (best)
+                            L(lattice_hyp(dag, best));
+                        int32 post = L(lattice_posterior(dag, ascale));
+                        out.events.i64(post);
+                        static const int32 beams[] = { -200000, -20000, -5000, -500, -1, 0 };
+                        int32 beam = beams[kk % 6];
+                        int np = L(lattice_posterior_prune(dag, beam));
+                        out.events.i64(np);
+                        out.probes[np > 0 ? "api.lattice_pruned_some" : "api.lattice_pruned_none"]++;
+                        best = L(lattice_bestpath(dag, ascale));
+                        if (best)
+                            L(lattice_hyp(dag, best));
+                        else
+                            out.probes["api.lattice_no_path_after_prune"]++;
+                        L(lattice_posterior(dag, ascale));
+                        hyp_iter_t *it = L(decoder_nbest(s.d));
+                        for (int n = 0; it && n < 3; ++n) {
+                            int32 sc;
+                            L(hyp_iter_hyp(it, &sc));
+                            it = L(hyp_iter_next(it));
+                        }
+                        if (it)
+                            LV(hyp_iter_free(it));
+                    }
                 } else if (what == "lattice") {
                     lattice_t *dag = L(decoder_lattice(s.d));
                     out.events.i64(dag ? dag->n_nodes : -1);
